@@ -476,7 +476,7 @@ fn operands(m: &Limbs, rich: bool) -> Vec<Limbs> {
 }
 
 fn c11(r: &Runner) {
-    r.set_rule("for every N in 1..=16: moduli m = (low, middle..., top) with low in {1,3,2^63+1,2^64-1}, middle limbs all-0 / all-MAX / alternating, top in {1,2,2^62-2,2^62-1,2^62,2^63-2,2^63-1,2^63,2^63+1,2^64-1} (below, at and above both carry thresholds); N = 1: all odd m in [3,255] and the one-limb boundary alphabet; operands a, b from {0,1,2,m-1,m-2,m/2,R mod m,...} plus run-shaped limb patterns and one-limb perturbations of m, reduced below m; the full product a x b per modulus; algorithms::{mul_redc,square_redc} and Uint::{mul_redc,square_redc} at BITS in {64N, 64N-1, 64N-63}. inv is computed by the harness. Every case is non-trivial; the hook counters state how often the carry / final-subtraction paths were reached");
+    r.set_rule("for every N in 1..=16: moduli m = (low, middle..., top) with low in {1,3,2^63+1,2^64-1}, middle limbs all-0 / all-MAX / alternating, top in {1,2,2^62-2,2^62-1,2^62,2^63-2,2^63-1,2^63,2^63+1,2^64-1} (below, at and above both carry thresholds); N = 1: all odd m in [3,255] and the one-limb boundary alphabet; operands a, b from {0,1,2,m-1,m-2,m/2,R mod m,...} plus run-shaped limb patterns and one-limb perturbations of m, reduced below m; the full product a x b per modulus; algorithms::{mul_redc,square_redc} and Uint::{mul_redc,square_redc} at BITS in {64N, 64N-1, 64N-63}. inv is computed by the harness. SOLVED universe (N = 2..8): for each modulus (the above plus structureless limbs and the BN254 / BLS12-381 / 2^255-19 primes) and each odd first limb b0 of b, a is solved so that the accumulator after the first round is m + j*2^64 (largest quotient digit in the next round, intermediate result >= m), with 4 fills of the upper limbs of b (incl. all-zero), both operand orders; plus all pairs of ordinary-looking operands. Every case is non-trivial; the hook counters state how often the carry / final-subtraction paths were reached");
     for n in 1..=16usize {
         for bits in [64 * n, 64 * n - 1, 64 * n - 63] {
             if bits == 0 {
@@ -524,6 +524,85 @@ fn c11(r: &Runner) {
                 }
             });
         }
+    }
+    c11_solved(r);
+}
+
+/// SOLVED intermediate states: operands for which the accumulator after the first round is T = m + j*2^64
+/// (T >= m, T = m (mod 2^64)), so that the NEXT round uses the largest quotient digit 2^64-1 and its result is
+/// again >= m. Needs a*b0 = m + j*2^128 exactly: j is solved modulo the (odd) first limb b0 of b.
+fn c11_solved(r: &Runner) {
+    const B0: [u64; 10] = [3, 5, 7, 255, (1 << 32) + 1, 1_000_003, 0x9E37_79B9_7F4A_7C15, 0x0101_0101_0101_0101, 10_000_000_000_000_000_001, u64::MAX];
+    let bn254_r: BigUint = "21888242871839275222246405745257275088548364400416034343698204186575808495617".parse().unwrap();
+    let bls_r: BigUint = "52435875175126190479447740508185965837690552500527637822603658699938581184513".parse().unwrap();
+    let p25519: BigUint = pow2(255) - 19u32;
+    for n in 2..=8usize {
+        let bits = 64 * n;
+        let mut ms = moduli(n, bits);
+        // ordinary-looking moduli: structureless limbs with tops on both sides of the thresholds, and well-known primes
+        let g = golden(3 * n);
+        for (k, top) in [(0usize, (1u64 << 61) + 12345), (1, (1 << 62) + 987_654_321), (2, (1 << 63) + 55)] {
+            let mut m: Limbs = (0..n).map(|i| g[k * n + i]).collect();
+            m[0] |= 1;
+            m[n - 1] = top;
+            ms.push(m);
+        }
+        if n == 4 {
+            ms.extend([&bn254_r, &bls_r, &p25519].iter().map(|p| to_limbs_n(p, 4)));
+        }
+        r.universe(&format!("N={n}: solved states T1 = m + j*2^64 for {} moduli x {} first limbs x 4 fills", ms.len(), B0.len()), bits, ms.len(), |i, l| {
+            let m = &ms[i];
+            let bm = big(m);
+            let inv = neg_inv64(m[0]);
+            let p128 = pow2(128);
+            for &b0 in &B0 {
+                let bb0 = BigUint::from(b0);
+                let Some(pi) = (&p128 % &bb0).modinv(&bb0) else { continue };
+                let j = ((&bb0 - (&bm % &bb0)) * pi) % &bb0;
+                let num = &bm + &j * &p128;
+                if !(&num % &bb0).is_zero() {
+                    panic!("harness: solved universe is inconsistent");
+                }
+                let a = &num / &bb0;
+                if a >= bm || (&j << 64usize) >= bm {
+                    continue;
+                }
+                for fill in [0u64, 1, u64::MAX, 0x9E37_79B9_7F4A_7C15] {
+                    let mut b = vec![fill; n];
+                    b[0] = b0;
+                    if big(&b) >= bm {
+                        b[n - 1] = 0;
+                    }
+                    if big(&b) >= bm {
+                        continue;
+                    }
+                    let (av, bv) = (V::U(to_limbs_n(&a, n)), vu(&b));
+                    l.states(1);
+                    for (x, y) in [(&av, &bv), (&bv, &av)] {
+                        let args = [x.clone(), y.clone(), vu(m), V::N(inv as u128)];
+                        exec(l, bits, Op::alg_mul_redc, &args);
+                        exec(l, bits, Op::uint_mul_redc, &args);
+                    }
+                }
+            }
+            // ordinary operands: all pairs (incl. a = b) of structureless / decimal / byte-pattern values below m
+            let g = golden(2 * n);
+            let mut ops: Vec<BigUint> = vec![big(&g[..n].to_vec()), big(&g[n..].to_vec()), big(&vec![0x0101_0101_0101_0101u64; n]), "1".repeat(19 * n).parse().unwrap(), &bm - BigUint::from(10_000_000_019u64), (&bm >> 1) + 12345u32];
+            for o in ops.iter_mut() {
+                *o = &*o % &bm;
+            }
+            for a in &ops {
+                let sq = [V::U(to_limbs_n(a, n)), vu(m), V::N(inv as u128)];
+                exec(l, bits, Op::alg_square_redc, &sq);
+                exec(l, bits, Op::uint_square_redc, &sq);
+                for b in &ops {
+                    l.states(1);
+                    let args = [V::U(to_limbs_n(a, n)), V::U(to_limbs_n(b, n)), vu(m), V::N(inv as u128)];
+                    exec(l, bits, Op::alg_mul_redc, &args);
+                    exec(l, bits, Op::uint_mul_redc, &args);
+                }
+            }
+        });
     }
 }
 
@@ -597,7 +676,7 @@ fn compose_universe(r: &Runner) {
 
 fn c12(r: &Runner) {
     compose_universe(r);
-    r.set_rule("S(B)^2 for B <= 8 (10 thorough); all pairs of the wide universe at edge widths; a = b, a = b +- 1; and the QUOTIENT-SEQUENCE universe: the tree of inverse Euclid steps (a,b) -> (q*a+b, a) from seeds (g,0), g in {1,2,2^20,15015,2^61-1}, q in {1,2,3,2^32-1,2^32,2^63,2^64-1}, explored deviation-bounded (q = 1, the Fibonacci path, is free; any other quotient costs 1): EVERY sequence with at most D deviations is followed until the pair no longer fits the width and every node is a checked pair (gcd, lcm, gcd_extended in both argument orders, the Lehmer matrix of the pair and the word-level prefix matrices of its leading 128 bits). from_u64 on all pairs < 2^10 and on B64^2. non-trivial: both operands non-zero and different");
+    r.set_rule("S(B)^2 for B <= 8 (10 thorough); all pairs of the wide universe at edge widths; a = b, a = b +- 1; and the QUOTIENT-SEQUENCE universe: the tree of inverse Euclid steps (a,b) -> (q*a+b, a) from seeds (g,0), g in {1,2,2^20,15015,2^61-1,2^64+1,2^128+1}, q in {1,2,3,2^32-1,2^32,2^63,2^64-1}, explored deviation-bounded (q = 1, the Fibonacci path, is free; any other quotient costs 1): EVERY sequence with at most D deviations is followed until the pair no longer fits the width and every node is a checked pair (gcd, lcm, gcd_extended in both argument orders, the Lehmer matrix of the pair and the word-level prefix matrices of its leading 128 bits). from_u64 on all pairs < 2^10 and on B64^2. non-trivial: both operands non-zero and different");
     for bits in 0..=if r.is_thorough() { 10usize } else { 8 } {
         let uv = small_all(bits);
         r.universe(&format!("S({bits})^2"), bits, uv.len(), |i, l| {
@@ -635,7 +714,9 @@ fn c12(r: &Runner) {
     } else {
         vec![(64, 2), (65, 2), (127, 2), (128, 2), (129, 2), (192, 1), (256, 1), (257, 1), (320, 1)]
     };
-    let seeds: Vec<BigUint> = [1u64, 2, 1 << 20, 3 * 5 * 7 * 11 * 13, (1 << 61) - 1].iter().map(|g| BigUint::from(*g)).collect();
+    let mut seeds: Vec<BigUint> = [1u64, 2, 1 << 20, 3 * 5 * 7 * 11 * 13, (1 << 61) - 1].iter().map(|g| BigUint::from(*g)).collect();
+    // common divisors above one word that are 1 modulo 2^64
+    seeds.extend([pow2(64) + 1u32, pow2(128) + 1u32]);
     for (bits, maxdev) in qw {
         let lim = pow2(bits);
         // roots: all nodes of depth <= 2 with their deviation count (tasks for the parallel DFS)
